@@ -450,45 +450,45 @@ theorem processAcks_spec (m : Manager) (ranges : List (Nat × Nat)) (d now rx : 
       exact ⟨la, by rw [f4]; exact hla, hl⟩
 
 
-/-! ### the ghost `highestSent` is only written by `on_packet_sent` -/
+/-! ### the ghost `nextPn` is only written by `on_packet_sent` -/
 
-theorem hs_subBif (m : Manager) (i n : Nat) : (subBif m i n).highestSent = m.highestSent := by
+theorem hs_subBif (m : Manager) (i n : Nat) : (subBif m i n).nextPn = m.nextPn := by
   simp only [subBif]; split <;> rfl
 
-theorem hs_lostOne (d c : Nat) (m : Manager) (p : SentInfo) : (lostOne d c m p).highestSent = m.highestSent := by
+theorem hs_lostOne (d c : Nat) (m : Manager) (p : SentInfo) : (lostOne d c m p).nextPn = m.nextPn := by
   simp only [lostOne, subBif]
   repeat' split
   all_goals rfl
 
 theorem hs_foldl_lostOne (d c : Nat) (L : List SentInfo) : ∀ m : Manager,
-    (L.foldl (lostOne d c) m).highestSent = m.highestSent := by
+    (L.foldl (lostOne d c) m).nextPn = m.nextPn := by
   induction L with
   | nil => intro m; rfl
   | cons p ps ih => intro m; simp only [List.foldl_cons]; rw [ih, hs_lostOne]
 
-theorem hs_ackOne (rx : Nat) (m : Manager) (p : SentInfo) : (ackOne rx m p).highestSent = m.highestSent := by
+theorem hs_ackOne (rx : Nat) (m : Manager) (p : SentInfo) : (ackOne rx m p).nextPn = m.nextPn := by
   simp only [ackOne, subBif]
   repeat' split
   all_goals rfl
 
 theorem hs_foldl_ackOne (rx : Nat) (L : List SentInfo) : ∀ m : Manager,
-    (L.foldl (ackOne rx) m).highestSent = m.highestSent := by
+    (L.foldl (ackOne rx) m).nextPn = m.nextPn := by
   induction L with
   | nil => intro m; rfl
   | cons p ps ih => intro m; simp only [List.foldl_cons]; rw [ih, hs_ackOne]
 
-theorem hs_updatePtoTimer (m : Manager) (now : Nat) : (updatePtoTimer m now).highestSent = m.highestSent := by
+theorem hs_updatePtoTimer (m : Manager) (now : Nat) : (updatePtoTimer m now).nextPn = m.nextPn := by
   simp only [updatePtoTimer]
   repeat' split
   all_goals rfl
 
 theorem hs_armLossTimer (m : Manager) (la now : Nat) (rest : List SentInfo) :
-    (armLossTimer m la now rest).highestSent = m.highestSent := by
+    (armLossTimer m la now rest).nextPn = m.nextPn := by
   simp only [armLossTimer]
   repeat' split
   all_goals rfl
 
-theorem hs_detect (m : Manager) (now cur : Nat) : (detectAndRemoveLost m now cur).1.highestSent = m.highestSent := by
+theorem hs_detect (m : Manager) (now cur : Nat) : (detectAndRemoveLost m now cur).1.nextPn = m.nextPn := by
   rcases ho : m.largestAcked with _ | la
   · rw [detectAndRemoveLost_none m now cur ho]
   · rw [detectAndRemoveLost_some m now cur la ho]
@@ -496,40 +496,40 @@ theorem hs_detect (m : Manager) (now cur : Nat) : (detectAndRemoveLost m now cur
     rw [hs_foldl_lostOne]
     exact hs_armLossTimer _ _ _ _
 
-theorem hs_updateLargestAcked (m : Manager) (fl : Nat) : (updateLargestAcked m fl).highestSent = m.highestSent := by
+theorem hs_updateLargestAcked (m : Manager) (fl : Nat) : (updateLargestAcked m fl).nextPn = m.nextPn := by
   simp only [updateLargestAcked]
   repeat' split
   all_goals rfl
 
 theorem hs_rttSample (m : Manager) (lna : SentInfo) (fl d now rx : Nat) (ae : Bool) :
-    (rttSample m lna fl d now rx ae).highestSent = m.highestSent := by
+    (rttSample m lna fl d now rx ae).nextPn = m.nextPn := by
   simp only [rttSample]; split <;> rfl
 
 theorem hs_processNewAcked (m : Manager) (A : List SentInfo) (now rx : Nat) :
-    (processNewAcked m A now rx).1.highestSent = m.highestSent := by
+    (processNewAcked m A now rx).1.nextPn = m.nextPn := by
   simp only [processNewAcked]
   split
   · rw [hs_subBif, hs_updatePtoTimer, hs_foldl_ackOne, hs_detect]
   · rw [hs_updatePtoTimer, hs_foldl_ackOne, hs_detect]
 
 theorem hs_processAcks (m : Manager) (ranges : List (Nat × Nat)) (d now rx : Nat) :
-    (processAcks m ranges d now rx).1.highestSent = m.highestSent := by
+    (processAcks m ranges d now rx).1.nextPn = m.nextPn := by
   simp only [processAcks]
   split
   · rw [hs_updateLargestAcked]
   · rw [hs_processNewAcked, hs_rttSample, hs_updateLargestAcked]
 
-theorem hs_onTimeout (m : Manager) (now : Nat) : (onTimeout m now).1.highestSent = m.highestSent := by
+theorem hs_onTimeout (m : Manager) (now : Nat) : (onTimeout m now).1.nextPn = m.nextPn := by
   simp only [onTimeout, onLossTimeout, onPtoTimeout]
   repeat' split
   all_goals first | rfl | (rw [hs_updatePtoTimer, hs_detect]; done) | (rw [hs_updatePtoTimer]; done)
 
 /-! ### timeouts -/
 
-theorem hs_onLossTimeout (m : Manager) (now : Nat) : (onLossTimeout m now).1.highestSent = m.highestSent := by
+theorem hs_onLossTimeout (m : Manager) (now : Nat) : (onLossTimeout m now).1.nextPn = m.nextPn := by
   simp only [onLossTimeout]; rw [hs_updatePtoTimer, hs_detect]
 
-theorem hs_onPtoTimeout (m : Manager) (now : Nat) : (onPtoTimeout m now).1.highestSent = m.highestSent := by
+theorem hs_onPtoTimeout (m : Manager) (now : Nat) : (onPtoTimeout m now).1.nextPn = m.nextPn := by
   simp only [onPtoTimeout]
   split
   · rw [hs_updatePtoTimer]
@@ -581,14 +581,15 @@ structure StepOk (m : Manager) (op : Op) (m' : Manager) (out : Out) : Prop where
   perm : (out.acked ++ (out.lost ++ (out.discarded ++ m'.sent.map (·.pn)))).Perm (m.sent.map (·.pn) ++ out.sent)
   lost : ∀ pn ∈ out.lost, ∃ p ∈ m.sent, p.pn = pn ∧
     ∃ la now, op.now? = some now ∧ m'.largestAcked = some la ∧ LostBy la now p
-  sentNew : out.sent = [] ∧ m'.highestSent = m.highestSent ∨
-    ∃ pn, out.sent = [pn] ∧ m'.highestSent = some pn ∧ ∀ h, m.highestSent = some h → h < pn
+  sentNew : out.sent = [] ∧ m'.nextPn = m.nextPn ∨
+    ∃ pn, out.sent = [pn] ∧ m'.nextPn = pn + 1 ∧ m.nextPn ≤ pn
+  sub : ∀ p ∈ m'.sent, p ∈ m.sent ∨ (p.congestionControlled = false → p.sentBytes = 0)
 
 theorem perm_of_eq {α : Type} {a b : List α} (h : a = b) : a.Perm b := h ▸ List.Perm.refl _
 
 theorem stepOk_same (m : Manager) (op : Op) (m' : Manager) (hi : Inv m') (hs : m'.sent = m.sent)
-    (hh : m'.highestSent = m.highestSent) : StepOk m op m' {} :=
-  ⟨hi, by simp [hs], by simp, Or.inl ⟨rfl, hh⟩⟩
+    (hh : m'.nextPn = m.nextPn) : StepOk m op m' {} :=
+  ⟨hi, by simp [hs], by simp, Or.inl ⟨rfl, hh⟩, fun p hp => Or.inl (hs ▸ hp)⟩
 
 theorem inv_of_same (m m' : Manager) (hi : Inv m) (hs : m'.sent = m.sent) (hc : ∀ path, cnt m' path = cnt m path)
     (hu : m'.underflow = m.underflow) : Inv m' :=
@@ -602,9 +603,9 @@ theorem cnt_setPath_same (m : Manager) (i : Nat) (p : PathState) (h : p.bytesInF
   · rfl
 
 theorem stepOk_transport (m m0 : Manager) (op : Op) (m' : Manager) (out : Out) (h : StepOk m0 op m' out)
-    (hs : m0.sent = m.sent) (hh : m0.highestSent = m.highestSent) : StepOk m op m' out := by
-  obtain ⟨a, b, c, d⟩ := h
-  exact ⟨a, by rw [← hs]; exact b, by rw [← hs]; exact c, by rw [← hh]; exact d⟩
+    (hs : m0.sent = m.sent) (hh : m0.nextPn = m.nextPn) : StepOk m op m' out := by
+  obtain ⟨a, b, c, d, e⟩ := h
+  exact ⟨a, by rw [← hs]; exact b, by rw [← hs]; exact c, by rw [← hh]; exact d, by rw [← hs]; exact e⟩
 
 def mkInfo (pn : Nat) (cc : Bool) (bytes now : Nat) (ae : Bool) (pathId : Nat) (mtu : Bool) : SentInfo :=
   { pn := pn, congestionControlled := cc, sentBytes := if cc = true then bytes else 0, timeSent := now, ackEliciting := ae, pathId := pathId, mtuProbe := mtu }
@@ -613,7 +614,7 @@ theorem onTimeout_ok (m : Manager) (now : Nat) (hi : Inv m) :
     StepOk m (.timeout now) (onTimeout m now).1 (onTimeout m now).2 := by
   simp only [onTimeout]
   generalize hm0 : (if m.ptoUpdatePending = true then { m with panicked := true } else m) = m0
-  have h0 : m0.sent = m.sent ∧ Inv m0 ∧ m0.highestSent = m.highestSent := by
+  have h0 : m0.sent = m.sent ∧ Inv m0 ∧ m0.nextPn = m.nextPn := by
     rw [← hm0]; split
     · exact ⟨rfl, ⟨hi.noUnderflow, hi.exact⟩, rfl⟩
     · exact ⟨rfl, hi, rfl⟩
@@ -622,7 +623,7 @@ theorem onTimeout_ok (m : Manager) (now : Nat) (hi : Inv m) :
   split
   · split
     · obtain ⟨l1, lost, l2, l3, l4⟩ := onLossTimeout_spec m0 now h0i
-      refine ⟨l1, ?_, ?_, Or.inl ⟨by rw [l2], hs_onLossTimeout m0 now⟩⟩
+      refine ⟨l1, ?_, ?_, Or.inl ⟨by rw [l2], hs_onLossTimeout m0 now⟩, fun p hp => Or.inl (by rw [l3]; exact List.mem_append_right _ hp)⟩
       · rw [l2, l3]; simp
       · intro pn hpn
         rw [l2] at hpn
@@ -630,9 +631,9 @@ theorem onTimeout_ok (m : Manager) (now : Nat) (hi : Inv m) :
         obtain ⟨p, hp, rfl⟩ := hpn
         obtain ⟨la, hla, hl⟩ := l4 p hp
         exact ⟨p, by rw [l3]; exact List.mem_append_left _ hp, rfl, la, now, rfl, hla, hl⟩
-    · exact ⟨h0i, by simp, by simp, Or.inl ⟨rfl, rfl⟩⟩
+    · exact ⟨h0i, by simp, by simp, Or.inl ⟨rfl, rfl⟩, fun p hp => Or.inl hp⟩
   · obtain ⟨p1, p2, p3, p4⟩ := onPtoTimeout_fields m0 now
-    refine ⟨inv_of_same m0 _ h0i p1 p3 p4, ?_, ?_, Or.inl ⟨by rw [p2], hs_onPtoTimeout m0 now⟩⟩
+    refine ⟨inv_of_same m0 _ h0i p1 p3 p4, ?_, ?_, Or.inl ⟨by rw [p2], hs_onPtoTimeout m0 now⟩, fun p hp => Or.inl (p1 ▸ hp)⟩
     · rw [p2, p1]; simp
     · rw [p2]; simp
 
@@ -641,19 +642,27 @@ theorem apply_ok (m : Manager) (op : Op) (hi : Inv m) (hv : op.validCore m = tru
   cases op with
   | send pn bytes cc ae now pathId mtu =>
     simp only [apply, onPacketSent]
-    have hh : ∀ h, m.highestSent = some h → h < pn := by
-      intro h hm
-      simp only [Op.validCore, hm, Bool.and_eq_true, decide_eq_true_eq] at hv
+    have hh : m.nextPn ≤ pn := by
+      simp only [Op.validCore, Bool.and_eq_true, decide_eq_true_eq] at hv
       exact hv.1.1
     have hcore : ∀ (m' : Manager), m'.sent = m.sent ++ [mkInfo pn cc bytes now ae pathId mtu] →
         (∀ path, cnt m' path = cnt m path + (if pathId = path then (if cc = true then bytes else 0) else 0)) →
-        m'.underflow = m.underflow → m'.highestSent = some pn → StepOk m (.send pn bytes cc ae now pathId mtu) m' { sent := [pn] } := by
+        m'.underflow = m.underflow → m'.nextPn = pn + 1 → StepOk m (.send pn bytes cc ae now pathId mtu) m' { sent := [pn] } := by
       intro m' hs hc hu hh'
-      refine ⟨⟨hu.trans hi.noUnderflow, fun path => ?_⟩, ?_, by simp, Or.inr ⟨pn, rfl, hh', hh⟩⟩
+      refine ⟨⟨hu.trans hi.noUnderflow, fun path => ?_⟩, ?_, by simp, Or.inr ⟨pn, rfl, hh', hh⟩, ?_⟩
       · rw [hc path, hs, ub_append, hi.exact path]
         simp only [unresolvedBytes, mkInfo, Nat.add_zero]
         rfl
       · simp [hs, mkInfo]
+      · intro p hp
+        rw [hs] at hp
+        rcases List.mem_append.mp hp with h | h
+        · exact Or.inl h
+        · right; intro hcc
+          simp only [List.mem_singleton] at h
+          subst h
+          simp only [mkInfo] at hcc ⊢
+          simp [hcc]
     split
     · exact hcore _ rfl (fun path => cnt_addBif m pathId _ path) rfl rfl
     · exact hcore _ rfl (fun path => cnt_addBif m pathId _ path) rfl rfl
@@ -668,7 +677,8 @@ theorem apply_ok (m : Manager) (op : Op) (hi : Inv m) (hv : op.validCore m = tru
     by_cases hr : ackValid m ranges = true
     · rw [if_pos hr]
       obtain ⟨a1, A, lost, a2, a3, a4, a5⟩ := processAcks_spec m ranges d now rx hi
-      refine ⟨a1, ?_, ?_, Or.inl ⟨by rw [a2], hs_processAcks m ranges d now rx⟩⟩
+      refine ⟨a1, ?_, ?_, Or.inl ⟨by rw [a2], hs_processAcks m ranges d now rx⟩,
+        fun p hp => Or.inl (a3.mem_iff.mp (List.mem_append_right _ (List.mem_append_right _ hp)))⟩
       · simp only [a2, List.nil_append, List.append_nil]
         have := a3.map (·.pn)
         simpa using this
@@ -687,7 +697,7 @@ theorem apply_ok (m : Manager) (op : Op) (hi : Inv m) (hv : op.validCore m = tru
     have hb : sumBytes m.sent ≤ cnt m pathId := by rw [h1, hi.exact pathId]; exact Nat.le_refl _
     obtain ⟨s1, s2, s3⟩ := subBif_ok m pathId _ hb
     simp only [apply, onSpaceDiscarded]
-    refine ⟨⟨s2.trans hi.noUnderflow, fun path => ?_⟩, by simp [s3], by simp, Or.inl ⟨rfl, hs_subBif m pathId _⟩⟩
+    refine ⟨⟨s2.trans hi.noUnderflow, fun path => ?_⟩, by simp [s3], by simp, Or.inl ⟨rfl, hs_subBif m pathId _⟩, by simp⟩
     show cnt (subBif m pathId (sumBytes m.sent)) path = unresolvedBytes path []
     rw [s1 path, hi.exact path]
     by_cases hp : pathId = path
@@ -699,7 +709,7 @@ theorem apply_ok (m : Manager) (op : Op) (hi : Inv m) (hv : op.validCore m = tru
     have hb : sumBytes m.sent ≤ cnt m pathId := by rw [h1, hi.exact pathId]; exact Nat.le_refl _
     obtain ⟨s1, s2, s3⟩ := subBif_ok m pathId _ hb
     simp only [apply, onRetry]
-    refine ⟨⟨s2.trans hi.noUnderflow, fun path => ?_⟩, by simp [s3], by simp, Or.inl ⟨rfl, hs_subBif m pathId _⟩⟩
+    refine ⟨⟨s2.trans hi.noUnderflow, fun path => ?_⟩, by simp [s3], by simp, Or.inl ⟨rfl, hs_subBif m pathId _⟩, by simp⟩
     show cnt (subBif m pathId (sumBytes m.sent)) path = unresolvedBytes path []
     rw [s1 path, hi.exact path]
     by_cases hp : pathId = path
@@ -717,10 +727,10 @@ theorem apply_ok (m : Manager) (op : Op) (hi : Inv m) (hv : op.validCore m = tru
   | setActivePath pathId => exact stepOk_same m _ _ ⟨hi.noUnderflow, hi.exact⟩ rfl rfl
 
 theorem validCore_tick (m : Manager) (op : Op) : op.validCore (tick m op) = op.validCore m := by
-  cases op <;> simp only [tick, Op.now?, Op.validCore]
+  cases op <;> simp only [tick, Op.now?, Op.validCore] <;> rfl
 
 theorem tick_fields (m : Manager) (op : Op) :
-    (tick m op).sent = m.sent ∧ (tick m op).highestSent = m.highestSent ∧ (Inv m → Inv (tick m op)) := by
+    (tick m op).sent = m.sent ∧ (tick m op).nextPn = m.nextPn ∧ (Inv m → Inv (tick m op)) := by
   simp only [tick]
   split
   · exact ⟨rfl, rfl, fun h => ⟨h.noUnderflow, h.exact⟩⟩
@@ -735,5 +745,180 @@ theorem step_ok (m : Manager) (op : Op) (hi : Inv m) : StepOk m op (step m op).1
     simp only [Bool.not_eq_true, Bool.not_eq_false', Op.valid, Bool.and_eq_true] at hv
     obtain ⟨t1, t2, t3⟩ := tick_fields m op
     exact stepOk_transport m (tick m op) op _ _ (apply_ok (tick m op) op (t3 hi) (by rw [validCore_tick]; exact hv.2)) t1 t2
+
+
+theorem onTimeout_pto_branch (m : Manager) (now : Nat) (h : m.lossTimer = none) :
+    (onTimeout m now).1.sent = m.sent ∧ (onTimeout m now).2.lost = [] := by
+  simp only [onTimeout]
+  generalize hm0 : (if m.ptoUpdatePending = true then { m with panicked := true } else m) = m0
+  have h0 : m0.sent = m.sent ∧ m0.lossTimer = none := by
+    rw [← hm0]; split <;> exact ⟨rfl, h⟩
+  simp only [h0.2, Option.isSome_none, Bool.false_eq_true, if_false]
+  obtain ⟨p1, p2, _, _⟩ := onPtoTimeout_fields m0 now
+  exact ⟨p1.trans h0.1, by rw [p2]⟩
+
+/-! ### histories -/
+
+/-- history invariant: exact counters, distinct tracked packet numbers below `nextPn`, and only
+    congestion-controlled packets carry bytes -/
+structure HInv (m : Manager) : Prop where
+  inv : Inv m
+  nodup : (m.sent.map (·.pn)).Nodup
+  bound : ∀ p ∈ m.sent, p.pn < m.nextPn
+  ccBytes : ∀ p ∈ m.sent, p.congestionControlled = false → p.sentBytes = 0
+
+theorem hinv_init (sp : Rtt.Space) : HInv (init sp) :=
+  ⟨⟨rfl, fun _ => rfl⟩, by simp [init], by simp [init], by simp [init]⟩
+
+theorem count_singleton (a pn : Nat) : List.count a [pn] = if a = pn then 1 else 0 := by
+  by_cases h : a = pn
+  · subst h; simp
+  · rw [if_neg h]
+    exact List.count_eq_zero.mpr (by simp [h])
+
+theorem nextPn_mono_of (m : Manager) (op : Op) (m' : Manager) (out : Out) (h : StepOk m op m' out) :
+    m.nextPn ≤ m'.nextPn ∧ ∀ pn ∈ out.sent, m.nextPn ≤ pn ∧ pn < m'.nextPn := by
+  rcases h.sentNew with ⟨h1, h2⟩ | ⟨pn, h1, h2, h3⟩
+  · rw [h1, h2]; exact ⟨Nat.le_refl _, by simp⟩
+  · rw [h1, h2]
+    refine ⟨by omega, ?_⟩
+    intro x hx
+    simp only [List.mem_singleton] at hx
+    subst hx; omega
+
+theorem hinv_of_stepOk (m : Manager) (op : Op) (m' : Manager) (out : Out) (hm : HInv m) (h : StepOk m op m' out) :
+    HInv m' := by
+  have hcount := List.perm_iff_count.mp h.perm
+  have hnd := List.nodup_iff_count.mp hm.nodup
+  have hnotin : ∀ a, m.nextPn ≤ a → List.count a (m.sent.map (·.pn)) = 0 := by
+    intro a ha
+    apply List.count_eq_zero.mpr
+    intro hmem
+    simp only [List.mem_map] at hmem
+    obtain ⟨p, hp, rfl⟩ := hmem
+    have := hm.bound p hp; omega
+  have hmem_old : ∀ p ∈ m'.sent, p.pn ∈ m.sent.map (·.pn) ++ out.sent := by
+    intro p hp
+    apply h.perm.mem_iff.mp
+    simp only [List.mem_append, List.mem_map]
+    right; right; right; exact ⟨p, hp, rfl⟩
+  obtain ⟨hmono, hfresh⟩ := nextPn_mono_of m op m' out h
+  refine ⟨h.inv, ?_, ?_, ?_⟩
+  · apply List.nodup_iff_count.mpr
+    intro a
+    have h1 := hcount a
+    have h2 := hnd a
+    simp only [List.count_append] at h1
+    rcases h.sentNew with ⟨e1, _⟩ | ⟨pn, e1, _, e3⟩
+    · rw [e1] at h1; simp only [List.count_nil] at h1; omega
+    · rw [e1, count_singleton] at h1
+      split at h1
+      · rename_i e; subst e
+        have := hnotin a e3; omega
+      · omega
+  · intro p hp
+    rcases List.mem_append.mp (hmem_old p hp) with h1 | h1
+    · simp only [List.mem_map] at h1
+      obtain ⟨q, hq, e⟩ := h1
+      have := hm.bound q hq
+      have e' : q.pn = p.pn := e
+      omega
+    · exact (hfresh _ h1).2
+  · intro p hp
+    rcases h.sub p hp with h1 | h1
+    · exact hm.ccBytes p h1
+    · exact h1
+
+theorem hinv_step (m : Manager) (op : Op) (hm : HInv m) : HInv (step m op).1 :=
+  hinv_of_stepOk m op _ _ hm (step_ok m op hm.inv)
+
+theorem hinv_run (ops : List Op) : ∀ (m : Manager), HInv m → HInv (run m ops).1 := by
+  induction ops with
+  | nil => intro m h; exact h
+  | cons op ops ih =>
+    intro m h
+    simp only [run]
+    exact ih _ (hinv_step m op h)
+
+theorem nextPn_run (ops : List Op) : ∀ (m : Manager), HInv m →
+    m.nextPn ≤ (run m ops).1.nextPn ∧ ∀ pn ∈ (run m ops).2.sent, m.nextPn ≤ pn ∧ pn < (run m ops).1.nextPn := by
+  induction ops with
+  | nil => intro m _; exact ⟨Nat.le_refl _, by simp [run]⟩
+  | cons op ops ih =>
+    intro m h
+    obtain ⟨a1, a2⟩ := nextPn_mono_of m op _ _ (step_ok m op h.inv)
+    obtain ⟨b1, b2⟩ := ih _ (hinv_step m op h)
+    simp only [run]
+    refine ⟨by omega, ?_⟩
+    intro pn hpn
+    rcases List.mem_append.mp hpn with h1 | h1
+    · have := a2 pn h1; omega
+    · have := b2 pn h1; omega
+
+/-- bookkeeping of a whole history, by counting occurrences of a packet number -/
+theorem run_count (ops : List Op) : ∀ (m : Manager), HInv m → ∀ a,
+    List.count a (run m ops).2.acked + List.count a (run m ops).2.lost + List.count a (run m ops).2.discarded
+      + List.count a ((run m ops).1.sent.map (·.pn))
+      = List.count a (m.sent.map (·.pn)) + List.count a (run m ops).2.sent := by
+  induction ops with
+  | nil => intro m _ a; simp [run]
+  | cons op ops ih =>
+    intro m h a
+    have h1 := List.perm_iff_count.mp (step_ok m op h.inv).perm a
+    have h2 := ih _ (hinv_step m op h) a
+    simp only [run, List.count_append] at h1 h2 ⊢
+    omega
+
+/-- the packet numbers handed out over a history are pairwise distinct and distinct from the ones
+    tracked at its start -/
+theorem run_sent_count (ops : List Op) : ∀ (m : Manager), HInv m → ∀ a,
+    List.count a (m.sent.map (·.pn)) + List.count a (run m ops).2.sent ≤ 1 := by
+  induction ops with
+  | nil =>
+    intro m h a
+    simpa [run] using List.nodup_iff_count.mp h.nodup a
+  | cons op ops ih =>
+    intro m h a
+    have hs := step_ok m op h.inv
+    have h1 := List.perm_iff_count.mp hs.perm a
+    have h2 := ih _ (hinv_step m op h) a
+    have h3 := List.nodup_iff_count.mp h.nodup a
+    obtain ⟨b1, b2⟩ := nextPn_run ops _ (hinv_step m op h)
+    obtain ⟨c1, c2⟩ := nextPn_mono_of m op _ _ hs
+    simp only [run, List.count_append] at h1 h2 ⊢
+    -- `a` is either below `m.nextPn` (then it was not handed out again) or not tracked at the start
+    by_cases hlt : a < (step m op).1.nextPn
+    · have : List.count a (run (step m op).1 ops).2.sent = 0 := by
+        apply List.count_eq_zero.mpr
+        intro hmem; have := (b2 a hmem).1; omega
+      rcases hs.sentNew with ⟨e1, _⟩ | ⟨pn, e1, e2, e3⟩
+      · rw [e1] at h1 ⊢; simp only [List.count_nil] at h1 ⊢; omega
+      · rw [e1, count_singleton] at h1 ⊢
+        split at h1
+        · rename_i e; subst e
+          have : List.count a (m.sent.map (·.pn)) = 0 := by
+            apply List.count_eq_zero.mpr
+            intro hmem
+            simp only [List.mem_map] at hmem
+            obtain ⟨p, hp, rfl⟩ := hmem
+            have := h.bound p hp; omega
+          simp only [if_true]; omega
+        · rename_i hne; simp only [hne, if_false]; omega
+    · have z1 : List.count a (m.sent.map (·.pn)) = 0 := by
+        apply List.count_eq_zero.mpr
+        intro hmem
+        simp only [List.mem_map] at hmem
+        obtain ⟨p, hp, rfl⟩ := hmem
+        have := h.bound p hp; omega
+      have z2 : List.count a (step m op).2.1.sent = 0 := by
+        apply List.count_eq_zero.mpr
+        intro hmem; have := (c2 a hmem).2; omega
+      have z3 : List.count a ((step m op).1.sent.map (·.pn)) = 0 := by
+        apply List.count_eq_zero.mpr
+        intro hmem
+        simp only [List.mem_map] at hmem
+        obtain ⟨p, hp, rfl⟩ := hmem
+        have := (hinv_step m op h).bound p hp; omega
+      omega
 
 end Quic.Proofs.Lemmas.RecoveryManager
